@@ -6,3 +6,7 @@ import PG.Props.C01
 #print axioms PG.C01_offset_exact
 #print axioms PG.C01_block_local
 #print axioms PG.C01_cache
+#print axioms PG.C01_file
+#print axioms PG.C01_terminator_indep
+#print axioms PG.okRecs_resync
+#print axioms PG.okRecs_noise
